@@ -329,7 +329,7 @@ fn unknown_compression(ctx: &mut Ctx, case: u64) {
 
 pub fn run(ctx: &mut Ctx) {
     let mut case = 0u64;
-    for i in 0..ctx.n(200, 4000) {
+    for i in 0..ctx.n(200, 20_000) {
         if ctx.mine(case) {
             ctx.begin(case);
             zero_len_dir(ctx, i);
@@ -337,7 +337,7 @@ pub fn run(ctx: &mut Ctx) {
         }
         case += 1;
     }
-    for i in 0..ctx.n(120, 1500) {
+    for i in 0..ctx.n(120, 10_000) {
         if ctx.mine(case) {
             ctx.begin(case);
             empty_add(ctx, i);
@@ -345,7 +345,7 @@ pub fn run(ctx: &mut Ctx) {
         }
         case += 1;
     }
-    for i in 0..ctx.n(8, 60) {
+    for i in 0..ctx.n(8, 300) {
         if ctx.mine(case) {
             ctx.begin(case);
             metadata_shapes(ctx, i);
